@@ -33,6 +33,11 @@ FTYPES = [
 GENERICS = sx.generics([sx.gp_lt('a'), sx.gp_ty('T'), sx.gp_ty('U'), sx.gp_const('N', sx.tid('usize'))],
                        [sx.wty(T, [sx.tb_trait(['Tr'])])])
 DECLARED = ['T : Tr']
+# the same with an inline bound that mentions `Self` (it must be expanded wherever the impl is not for the type itself)
+GENERICS_SELF = sx.generics([sx.gp_lt('a'), sx.gp_ty('T'),
+                             sx.gp_ty('U', [sx.tb_trait([sx.seg('Wt', ('angle', [sx.gty(sx.tid('Self'))]))])]),
+                             sx.gp_const('N', sx.tid('usize'))],
+                            [sx.wty(T, [sx.tb_trait(['Tr'])])])
 
 TRAIT_PATH = {
     'Clone': 'core clone Clone', 'Copy': 'core marker Copy', 'Debug': 'core fmt Debug',
@@ -220,6 +225,9 @@ class BoundGen:
             variants_s.append((vattrs, fs))
             plan.append(dict(levels=vlevels, fields=fplans))
         gen = GENERICS
+        if self.r.random() < 0.25:
+            gen = GENERICS_SELF
+            feats.add('inline-Self-bound')
         if is_enum:
             it = sx.enum('E', [sx.variant('V%d' % i, fs, attrs=va) for i, (va, fs) in enumerate(variants_s)],
                          attrs=tattrs, gen=gen)
